@@ -55,6 +55,7 @@ type FuncContract struct {
 	Invs      []*Clause
 	Sites     []*Clause
 	Updates   []*Clause // precise ghost-table updates performed by the function
+	NoSites   []*Clause // operations that must not occur in the function (static)
 	Inits     []*Clause // ghost statements executed at function entry (scratch observation variables)
 	Modifies  []string
 	Preserves []string // with 'modifies heap': components that are nevertheless unchanged
@@ -114,7 +115,7 @@ var clauseKeywords = map[string]bool{
 	"func": true, "requires": true, "ensures": true, "modifies": true, "pure": true, "trusted": true,
 	"loop": true, "site": true, "ghost": true, "nonnil": true, "nilable": true, "fields_copied": true,
 	"sweep": true, "package": true, "axiom": true, "allow": true, "witness": true, "nosafety": true,
-	"deferrule": true, "skipfield": true, "preserves": true, "typeinv": true, "updates": true, "init": true, "blocks": true, "define": true, "fnspec": true, "result": true, "param": true, "implements": true,
+	"deferrule": true, "skipfield": true, "preserves": true, "typeinv": true, "updates": true, "init": true, "nosite": true, "blocks": true, "define": true, "fnspec": true, "result": true, "param": true, "implements": true,
 }
 
 // LoadContracts reads //@ clauses from zz_contracts_verif.go files under repo and *.gvc files under depsDir.
@@ -348,6 +349,14 @@ func (cs *Contracts) parseFile(path, pkg string, external bool) error {
 			} else {
 				cur.Ensures = append(cur.Ensures, c)
 			}
+		case "nosite":
+			if cur == nil {
+				return fail("nosite outside func")
+			}
+			for _, t := range tags {
+				cur.Tags[t] = true
+			}
+			cur.NoSites = append(cur.NoSites, &Clause{Kind: "nosite", Text: "no call of " + rest, Site: rest, Tags: tags, File: path, Line: rc.line})
 		case "init":
 			if cur == nil {
 				return fail("init outside func")
